@@ -211,7 +211,18 @@ class Build:
         self.case = case
         self.np = np_ = case["np"]
         self.labels = set()
-        self.thr = case["thr"]
+        self.thr = list(case["thr"])
+        # "mix" shapes: a late receiver facing MANY pending messages of both mailboxes (SMPI keeps a 'small' and a 'large' mailbox per
+        # receiver when smpi/async-small-thresh > 0): 1 = burst of one sender, 2 = fan-in of several senders; sizes from a palette
+        # around the eager threshold, roomy wildcard receives, non-blocking sends
+        self.mix = case.get("mix", 0)
+        if self.mix:
+            if self.thr[0] < 16:
+                self.thr = [64, 256]
+            wall = case.get("wall", 0)
+            wall = (wall if wall in (2, 3) else 2 + wall) if self.mix == 1 else (wall if wall in (1, 3) else 3 - wall // 2 * 2)
+            case = dict(case, fan=3 if self.mix == 1 else 1, snb=1, rlate=1, wall=wall)
+            self.case = case
         # ---- communicators: index 0 = world; the others are splits / dups of the world
         self.comm_groups = [[list(range(np_))]]           # per communicator index: list of member lists (one per color)
         self.comm_ops = []
@@ -254,13 +265,18 @@ class Build:
             tname, tsize = TYPES[tys[ci % len(tys)] % len(TYPES)]
             base = [m.get("k0", 0), self.thr[0], self.thr[1]][m.get("szc", 0) % 3]
             nbytes = max(0, base + m.get("szo", 0) * (tsize if tsize > 1 else 1))
+            if self.mix:
+                T = self.thr[0]
+                nbytes = [T, 0, 1, T - 1, T // 2, T + tsize, 2 * tsize, 3, T, T // 4][m.get("szm", 0) % 10] // tsize * tsize
             count = nbytes // tsize
             cap = max(0, count + m.get("cap", 0))
+            if self.mix and m.get("cap", 0) >= 0 and m.get("roomy", True):
+                cap = max(cap, (self.thr[0] + tsize - 1) // tsize + m.get("cap", 0))     # room for every eager message
             mode = m.get("sm", "std")
             rk = m.get("rk", "recv")
             if rk in ("probe", "iprobe"):
                 cap = max(0, count + m.get("cap", 0))      # decided at run time from the probed count: same formula for the intended message
-            self.msgs.append(dict(k=k, ci=ci, comm=(ci, tuple(g)), members=g, s=s, d=d, tag=m.get("tag", 0), tname=tname, tsize=tsize,
+            self.msgs.append(dict(k=k, ci=ci, comm=(ci, tuple(g)), members=g, s=s, d=d, tag=m.get("tag", 0) % (2 if self.mix else 1000), tname=tname, tsize=tsize,
                                   count=count, nbytes=count * tsize, cap=cap, capdelta=m.get("cap", 0), mode=mode, rk=rk,
                                   sk=m.get("sk", 0) or (99 if (case.get("snb") or fan == 3) else 0), rd=m.get("rd", 0), rh=m.get("rh", 0),
                                   ws=bool(m.get("ws")) or case.get("wall", 0) in (1, 3), wt=bool(m.get("wt")) or case.get("wall", 0) in (2, 3),
@@ -552,6 +568,36 @@ class Build:
                     return "recv-side"
         return None
 
+    def refused_candidates(self):
+        """(receive r, refused A, accepted B, predecessor P) shapes in which SMPI's receive EXAMINES a candidate A that it must refuse (A's
+        per-tag sequence number is not the next one: its same-envelope predecessor P waits in the 'large' mailbox) and then accepts a
+        message B queued behind A in the 'small' mailbox.  Whatever examining A does to the request must be undone.  Kinds:
+        'smaller' (A shorter than B and B fits the buffer: a stale size would truncate B), 'oversized' (A larger than the buffer: a stale
+        truncation mark, known finding)."""
+        if self.thr[0] <= 0:
+            return []
+        M, S, R = self.msgs, self.sends, self.recvs
+        res = []
+        for r in R:
+            capb = M[r]["cap"] * M[r]["tsize"]
+            for a in S:
+                if not (Explorer.compatible(S[a], R[r]) and mailbox(self, M[a]) == "small"):
+                    continue
+                pred = [p for p in S if (S[p]["rank"], S[p]["dst"], S[p]["comm"], S[p]["tag"]) == (S[a]["rank"], S[a]["dst"], S[a]["comm"], S[a]["tag"])
+                        and S[p]["seq"] < S[a]["seq"] and mailbox(self, M[p]) == "large"]
+                if not pred:
+                    continue
+                for c in S:
+                    if c == a or not Explorer.compatible(S[c], R[r]) or mailbox(self, M[c]) != "small" or M[c]["nbytes"] > capb:
+                        continue
+                    if S[c]["rank"] == S[a]["rank"] and (S[c]["seq"] < S[a]["seq"] or S[c]["tag"] == S[a]["tag"]):
+                        continue
+                    if M[a]["nbytes"] < M[c]["nbytes"]:
+                        res.append((r, a, c, pred[0], "smaller"))
+                    elif M[a]["nbytes"] > capb:
+                        res.append((r, a, c, pred[0], "oversized"))
+        return res
+
     def blocked_sig(self, default):
         if self.across_thresh():
             return "deadlock:truncation-across-async-thresh"
@@ -766,6 +812,16 @@ def judge(b, res, oc, E):
         o = obs[k]
         if M[got[k]]["count"] > o["cap"] and o["kind"] in MULTI:
             trunc_in_call.add((o["callset"], o["call"]))
+    def sticky_candidates(k, s, o, m):
+        """known finding, kept NARROW: an OVERSIZED candidate that SMPI examines and must refuse (its same-envelope predecessor waits in
+        the other mailbox) leaves its truncation mark on the receive; the message itself arrives complete (count and bytes right)"""
+        c_ = crc.get(k)
+        intact = (o["count"] == s["count"] and o["crc"] == OK and c_ is not None and c_[2] and
+                  c_[1] == zlib.crc32(pat_bytes(seed_for(s["k"], s["s"]), s["s"], s["nbytes"]) + bytes([FILL]) * (o["cap"] * m["tsize"] - s["nbytes"])))
+        if not intact:
+            return []
+        return sorted(set(a_ for r_, a_, c2, p_, kind_ in b.refused_candidates() if r_ == k and kind_ == "oversized"))
+
     for m in M:
         k = m["k"]
         o = obs[k]
@@ -782,6 +838,10 @@ def judge(b, res, oc, E):
             if truncated and not reported:
                 bad(("trunc-rc:" if err == TRUNC else "trunc-missed:") + kind, "%s: oversized, but the call returned %s with status.MPI_ERROR = %s "
                     "(expected MPI_ERR_IN_STATUS = %s and MPI_ERR_TRUNCATE = %s)" % (where, rc, err, INSTATUS, TRUNC))
+            elif not truncated and err == TRUNC and sticky_candidates(k, s, o, m):
+                bad("trunc-spurious:sticky-after-refused-candidate", "%s: the message fits, but status.MPI_ERROR = MPI_ERR_TRUNCATE (call returned %s); "
+                    "the larger messages %s also fit the pattern of this receive  [smpi/async-small-thresh:%d]"
+                    % (where, rc, sticky_candidates(k, s, o, m), b.thr[0]))
             elif not truncated and ((not call_has_trunc and rc != OK) or err == TRUNC):
                 # (when another receive of the same call IS truncated, the return code is judged there)
                 bad("trunc-spurious:" + kind, "%s: the message fits, but the call returned %s with status.MPI_ERROR = %s" % (where, rc, err))
@@ -790,8 +850,7 @@ def judge(b, res, oc, E):
                 bad(("trunc-rc:" + kind) if err == TRUNC else ("trunc-missed:" + kind + (":self" if m["selfmsg"] else "")), "%s: oversized, but the call returned %s (status.MPI_ERROR = %s), "
                     "expected MPI_ERR_TRUNCATE = %s" % (where, rc, err, TRUNC))
             elif not truncated and rc != OK:
-                sticky = [x["k"] for x in M if x["k"] != s["k"] and x["nbytes"] > o["cap"] * m["tsize"] and b.thr[0] > 0
-                          and Explorer.compatible(b.sends[x["k"]], b.recvs[k])]
+                sticky = sticky_candidates(k, s, o, m)
                 if rc == TRUNC and sticky:
                     # Request::match_common marks the receive truncated while it EXAMINES an oversized candidate that is then refused
                     # (not the next one of its tag: its predecessor waits in the other mailbox); the mark is never cleared
